@@ -28,6 +28,14 @@ Theorem C09_new_ok_iff : forall bpp alt data s,
   Z.of_nat (length data) = bytes_per_row (sw s) bpp * sh s.
 Proof. exact new_ok_iff. Qed.
 
+(* new_const: the same image as `new` for the exact length, a panic (None) for every other length *)
+Theorem C09_new_const_spec : forall bpp alt data s,
+  (Z.of_nat (length data) = bytes_per_row (sw s) bpp * sh s ->
+     raw_new_const bpp alt data s = Some (IR data s bpp alt) /\ raw_new bpp alt data s = inl (IR data s bpp alt)) /\
+  (Z.of_nat (length data) <> bytes_per_row (sw s) bpp * sh s ->
+     raw_new_const bpp alt data s = None /\ raw_new bpp alt data s = inr (bytes_per_row (sw s) bpp * sh s)).
+Proof. exact new_const_spec. Qed.
+
 Theorem C09_new_gives_img_ok : forall bpp alt data s img,
   bpp_ok bpp -> size_ok s -> raw_new bpp alt data s = inl img -> img_ok img.
 Proof. exact raw_new_img_ok. Qed.
